@@ -1200,7 +1200,9 @@ def corr_utf8_decoding(ctx, rng):
     carries (the value fix C01-B8 defines); Python's own decoder is the reference for the same three."""
     if not ctx.model_ok:
         return
-    cases = []
+    import random
+    rng = random.Random(int(ctx.seed) * 7919 + 17)    # own stream derived from VERIF_SEED: leaves ctx.rng (and with it every
+    cases = []                                        # other stream of C01_lex / C01_parse) exactly as it was
     for _, bad in INVALID_UTF8:
         for pre, post in ((b"", b""), (b"{ a }", b""), (b'{ a(b: "\xc3\xa9', b'") }'), (b"\xf0\x9f\x98\x80", b"x")):
             cases.append(pre + bad + post)
